@@ -64,6 +64,21 @@ def build_cases(tier):
             doms[sid[0]] = ('int', 0, 65535) if r != 'duration' else ('int', 0, 0xffffffff)
         stmts += mk(None)
         cases.append(scripth.Case(stmts, tag='raw-int-passthrough/%s' % cname, doms=doms))
+    # durations and delays across a unit switch (time and duration are different numbers)
+    for m0 in ('logical', 'raw', 'rgb'):
+        for m1 in ('logical', 'raw', 'rgb'):
+            if m0 == m1:
+                continue
+            hi = 10 ** 6 if m0 != 'raw' else 10 ** 9
+            stmts = [R.Units(m0), R.SetReg('duration', N(sid=1, kind='dur')), R.SetReg('time', N(sid=2, kind='time')), R.Units(m1),
+                     R.Action('set', [R.Operand('light', R.Str('A'))]), R.Action('on', [R.Operand('group', R.Str('G1'))]),
+                     R.Action('set', [R.Operand('light', R.Str('Z'), zone=(N(value=0), N(value=2)))]), R.Action('off', 'all')]
+            cases.append(scripth.Case(stmts, tag='switch/%s>%s' % (m0, m1), doms={1: ('real', 0, hi), 2: ('real', 0, hi)}))
+    # a raw colour read from a light and expressed in the current units converts back to the same raw colour
+    from vlib import shapes
+    cases += shapes.get_cases(scripth.Case)
+    # the many small cases first: the budget of the quick tier cuts from the end of the list
+    cases.sort(key=lambda c: 0 if c.tag.startswith(('get-', 'switch/', 'raw-int')) else 1)
     return cases
 
 
